@@ -692,7 +692,9 @@ def q_bounds(ctx, p):
     msg_re = re.compile(p.get("msg", r"index out of bounds"))
     for fn in sel:
         try:
-            enc = sym.Enc(fn, funcs, sym.Glob())
+            gl = sym.Glob()
+            gl.min_len = dict(p.get("min_len") or {})
+            enc = sym.Enc(fn, funcs, gl)
         except Exception as ex:
             details.append("%s: not encoded (%r)" % (short_fn(fn.name), ex))
             continue
@@ -707,10 +709,23 @@ def q_bounds(ctx, p):
             st = enc.out_state[b]
             ctxt = t["cond"].strip()
             neg = ctxt.startswith("!")
-            c = enc.operand(st, ctxt[1:] if neg else ctxt)
+            opnd = ctxt[1:] if neg else ctxt
+            c = enc.operand(st, opnd)
             if c is None or not z3.is_bool(c):
                 undecided += 1
                 continue
+            if p.get("overflow"):
+                # overflow flags are decided only where the arithmetic was modelled, and never for
+                # loop-carried accumulators (arbitrary at the loop head in this encoding, bounded by
+                # the trip count in reality)
+                mk = re.match(r"^(?:copy |move )?(\(_\d+\.1: bool\))$", opnd.strip())
+                is_flag = mk is not None
+                if is_flag and ("place:" + mk.group(1)) not in enc.modelled_flags:
+                    undecided += 1
+                    continue
+                if "havoc_" in str(c):
+                    undecided += 1
+                    continue
             if neg:
                 c = z3.Not(c)
             obligations += 1
